@@ -371,13 +371,14 @@ theorem C20_header_ro_ignores (C : Codecs) (k : Checks) (file : Bytes) (h : Hand
 
 /-- **C20_segment_checked** — a segment kind whose loader compares the stored checksum (memories
     track, logic mesh): bytes that do not hash to the manifest's checksum are never decoded. -/
-theorem C20_segment_checked (C : Codecs) (k : Checks) (file : Bytes) (t : MToc) (kind : SegKind) (s : MSeg)
+theorem C20_segment_checked (C : Codecs) (k : Checks) (kind : SegKind) (parts : List (MSeg × Bytes))
     (hcmp : k.compared kind = true) (hsw : kind.swallowed = false)
-    (honly : t.segs.filter (fun x => x.kind = kind ∧ x.len > 0) = [s])
-    (b : Bytes) (hread : readRange file s.off s.len = some b) (hbad : C.H b ≠ s.checksum) :
-    loadKind C k file t kind = .error .segChecksum := by
-  unfold loadKind
-  simp [honly, hread, hcmp, hsw, hbad]
+    (p : MSeg × Bytes) (hp : p ∈ parts) (hbad : C.H p.2 ≠ p.1.checksum) :
+    loadParts C k kind parts = .error .segChecksum := by
+  have hany : parts.any (fun p => decide (C.H p.2 ≠ p.1.checksum)) = true :=
+    List.any_eq_true.mpr ⟨p, hp, by simpa using hbad⟩
+  unfold loadParts
+  simp only [hcmp, hany, and_self, ↓reduceIte, hsw, Bool.false_eq_true]
 
 /-- **C20_segment_unchecked_counterexample** — kinds whose checksum is stored but never compared
     (time index, sketch track, vector index, Tantivy segments): different bytes are decoded and
@@ -408,42 +409,47 @@ theorem C20_verify (C : Codecs) (k : Checks) (hk1 : k.verifyPayload = true) (hk2
           boundsOk h f = true ∧ C.H (slice file f.off f.len) = f.checksum) ∧
       (∀ s ∈ h.toc.segs, s.len > 0 → ∃ b, readRange file s.off s.len = some b ∧ C.H b = s.checksum) := by
   unfold verify at hv
-  split at hv
-  · cases hv
-  · rename_i h hopen
+  cases hopen : openRO C k file with
+  | error e => simp [hopen] at hv
+  | ok h =>
+    simp only [hopen, Except.ok.injEq] at hv
     have hfile : h.file = file := by
       obtain ⟨_, _, _, hf, _⟩ := openRO_ok C k file h hopen
       exact hf
     obtain ⟨s, hs1, hs2, hs3, _⟩ := C20_ro_authentic C k file h hopen
-    simp only [Except.ok.injEq] at hv
-    unfold verifyChecks at hv
-    simp only [hk1, hk2, Bool.not_true, Bool.false_or] at hv
-    split at hv
-    · rename_i hall
-      simp only [Bool.and_eq_true] at hall
-      obtain ⟨⟨⟨_, hwal⟩, hpay⟩, hseg⟩ := hall
-      refine ⟨h, rfl, ⟨s, hs1, hs2, hs3⟩, ?_, ?_, ?_⟩
-      · intro rs hrs
-        rw [hrs] at hwal
-        simpa using hwal
-      · intro f hf hact hlen hne
-        rw [List.all_eq_true] at hpay
-        have := hpay f (by simp [List.mem_filter, hf, hact, hlen])
-        unfold readRaw at this
-        by_cases hb : boundsOk h f = true
-        · refine ⟨hb, ?_⟩
-          simp only [hb, Bool.not_true, Bool.false_eq_true, ↓reduceIte, hk3, true_and, hfile] at this
-          by_contra hx
-          simp [hne, hx, Except.toOption] at this
-        · simp [hb, Except.toOption] at this
-      · intro sg hsg hlen
-        rw [List.all_eq_true] at hseg
-        have := hseg sg (by simp [List.mem_filter, hsg, hlen])
-        split at this
-        · rename_i b hb
-          exact ⟨b, hb, by simpa using this⟩
-        · cases this
-    · cases hv
+    have hc : (timeOk C k h && walOk C file h && (!k.verifyPayload || payloadOk C k h) &&
+               (!k.verifySegments || segOk C file h)) = true := by
+      by_cases hc : (timeOk C k h && walOk C file h && (!k.verifyPayload || payloadOk C k h) &&
+               (!k.verifySegments || segOk C file h)) = true
+      · exact hc
+      · simp only [verifyChecks, hc, Bool.false_eq_true, ↓reduceIte] at hv
+        cases hv
+    simp only [hk1, hk2, Bool.not_true, Bool.false_or, Bool.and_eq_true] at hc
+    obtain ⟨⟨⟨_, hwal⟩, hpay⟩, hseg⟩ := hc
+    refine ⟨h, rfl, ⟨s, hs1, hs2, hs3⟩, ?_, ?_, ?_⟩
+    · intro rs hrs
+      unfold walOk at hwal
+      rw [hrs] at hwal
+      simpa using hwal
+    · intro f hf hact hlen hne
+      unfold payloadOk at hpay
+      rw [List.all_eq_true] at hpay
+      have := hpay f (by simp [List.mem_filter, hf, hact, hlen])
+      unfold readRaw at this
+      by_cases hb : boundsOk h f = true
+      · refine ⟨hb, ?_⟩
+        simp only [hb, Bool.not_true, Bool.false_eq_true, ↓reduceIte, hk3, true_and, hfile] at this
+        by_cases hx : C.H (slice file f.off f.len) = f.checksum
+        · exact hx
+        · simp [hne, hx, Except.toOption] at this
+      · simp [hb, Except.toOption] at this
+    · intro sg hsg hlen
+      unfold segOk at hseg
+      rw [List.all_eq_true] at hseg
+      have := hseg sg (by simp [List.mem_filter, hsg, hlen])
+      cases hr : readRange file sg.off sg.len with
+      | none => simp [hr] at this
+      | some b => exact ⟨b, rfl, by simpa [hr] using this⟩
 
 /-- **C20_verify_counterexample_unfixed** — before the repair `verify(deep)` has no payload pass and
     compares no segment checksum: a handle whose Plain payload was flipped still yields `Passed`. -/
